@@ -49,27 +49,27 @@ def gen_program(rng, cyclic=True, negation=True, ads=True, evidence=True, max_le
     preds = {}
     stmts = []
     base = []
-    for i in range(rng.randint(1, 3)):
-        ar = rng.choice([0, 1, 1, 2])
+    for i in range(rng.randint(2, 3)):
+        ar = rng.choice([0, 1, 1, 1, 2])
         name = "f%d" % i
         preds[name] = (ar, 0)
         base.append(name)
         insts = list(itertools.product(consts, repeat=ar))
         rng.shuffle(insts)
-        for args in insts[:rng.randint(1, min(len(insts), 3))]:
-            if rng.random() < 0.75:
+        for args in insts[:rng.randint(1, min(len(insts), 4))]:
+            if rng.random() < 0.8:
                 stmts.append(("pf", F(rng.randint(1, 9), 10), (name, args)))
             else:
                 stmts.append(("fact", (name, args)))
     der = []
-    for i in range(rng.randint(1, 4)):
+    for i in range(rng.randint(2, 4)):
         name = "p%d" % i
         preds[name] = (rng.choice([0, 1, 1, 2]), rng.randint(1, max_level))
         der.append(name)
 
     def mk_rule(head):
         har, hl = preds[head]
-        hargs = tuple(rng.choice(VARS[:2]) if rng.random() < 0.8 else rng.choice(consts) for _ in range(har))
+        hargs = tuple(rng.choice(VARS[:2]) if rng.random() < 0.9 else rng.choice(consts) for _ in range(har))
         body = []
         bound = set()
         cands_pos = [p for p, (a, l) in preds.items() if (l <= hl if cyclic else l < hl)]
@@ -82,7 +82,7 @@ def gen_program(rng, cyclic=True, negation=True, ads=True, evidence=True, max_le
                 body.append(("neg", (p, args)))
             else:
                 p = rng.choice(cands_pos)
-                args = tuple((rng.choice(VARS) if rng.random() < 0.8 else rng.choice(consts)) for _ in range(preds[p][0]))
+                args = tuple((rng.choice(VARS) if rng.random() < 0.9 else rng.choice(consts)) for _ in range(preds[p][0]))
                 bound.update(x for x in args if x in VARSET)
                 body.append(("pos", (p, args)))
         for x in [x for x in hargs if x in VARSET and x not in bound]:
@@ -100,7 +100,7 @@ def gen_program(rng, cyclic=True, negation=True, ads=True, evidence=True, max_le
         return (head, hargs), body
 
     for name in der:
-        for _ in range(rng.randint(1, 2)):
+        for _ in range(rng.randint(1, 3)):
             r = mk_rule(name)
             if r is None:
                 continue
@@ -153,7 +153,7 @@ def gen_program(rng, cyclic=True, negation=True, ads=True, evidence=True, max_le
     qs = []
     for _ in range(rng.randint(1, 3)):
         p = rng.choice(der + hp if (der + hp) else list(preds))
-        args = tuple((rng.choice(consts) if rng.random() < 0.6 else "_") for _ in range(preds[p][0]))
+        args = tuple((rng.choice(consts) if rng.random() < 0.35 else "_") for _ in range(preds[p][0]))
         if (p, args) not in qs:
             qs.append((p, args))
     P = dict(consts=consts, preds=preds, stmts=stmts, queries=qs, evidence=[])
@@ -335,6 +335,8 @@ def sem_line(P, queries=None, evidence=None):
 
 def parse_sem(out, qinst):
     """-> dict(z, probs{atom_s: Fraction or None}, undef, nworlds, negcycle)"""
+    if out.startswith("toobig"):
+        return None
     m = re.match(r"(\S+) \(([^)]*)\) (\d+) (\d+) (\w+)$", out)
     if not m:
         raise Infra("bad SEM output: " + out[:200])
@@ -422,14 +424,15 @@ def label_s(l):
     return "l%d" % (sum(map(ord, str(l))) % 1000)
 
 
-def ser_store(f, m, opts=None, with_names=True, ads=None):
+def ser_store(f, m, opts=None, with_names=True, ads=None, raw_ident=False):
     """Serialise a LogicFormula (or subclass) for the Lean side."""
     nodes = []
     for n in f._nodes:
         ty = type(n).__name__
         if ty == "atom":
             g = "-" if n.group is None else str(m.group(n.group))
-            nodes.append("(atom %s %s %s %s)" % (m.ident(n.identifier), g, "t" if n.is_extra else "f", m.name(n.name)))
+            idt = str(n.identifier) if raw_ident and isinstance(n.identifier, int) else m.ident(n.identifier)
+            nodes.append("(atom %s %s %s %s)" % (idt, g, "t" if n.is_extra else "f", m.name(n.name)))
         else:
             nodes.append("(%s (%s) %s)" % (ty, " ".join(k2s(c) for c in n.children), m.name(n.name)))
     ws = ["(%d %s)" % (i, w2s(w)) for i, w in f.get_weights().items()]
